@@ -66,7 +66,7 @@ def obligations(tier):
     C11 = _il.import_module("props.C11")
     o += [x for x in C11.own_obligations(tier) if x.name == "directed_thread_yield_to"]   # never switch into a unit another stream popped meanwhile: it would run on two streams
     C05 = _il.import_module("props.C05")
-    o += [x for x in C05.obligations("quick") if x.name == "timedwait_ult"]   # wait-list nodes live on the waiting ULT's stack: nothing may point into (and later write through) the stack of a ULT that has left
+    o += [x for x in C05.obligations("quick") if x.name.startswith("timedwait_ult")]   # wait-list nodes live on the waiting ULT's stack: nothing may point into (and later write through) the stack of a ULT that has left
     return o
 
 MANIFEST_ENTRY = {
